@@ -16,6 +16,7 @@ EXPLANATION = (
     "before any filter return in every model. [FILTER-NORM] every membership test against an id list has a lower-cased probe. [FILTER-PRE] a "
     "decision by number is taken in _decode, before reassembly state is touched. [FILTER-PURE] nothing filter-dependent is written into the message. "
     "The constructor is interpreted (absint.py) on every configuration of the table, so the claim flag, the list splitting and the removal of the claim from the lists may be spelled in any way. UNDECIDED: 'same positions' over whole histories (follows from the above together with C04/C16, not executed)."
+    " [FILTER-HIST] _call_decode_function is interpreted on the decoder its constructor builds over short histories in which one PGN number carries two definitions (A B, B A, A B A ...) with exclude=[id of B] / include=[id of A] and the reverse roles: every step's verdict must be the statement's for THAT message (a verdict memoised per number fails). [RA-DONE] (C04) with a delivered message that the id filters withhold: the reassembly record is still removed. When a guard of the tables is not evaluable as a term (another spelling: getattr, count(), a flag local ...), the same question is answered by running _decode in the abstract interpreter (rules_filter.DecodePath)."
 )
 ASSUMPTIONS = ["CPython ast parser", "sym.py guard extraction (program order, if/else joined)", "teval.py evaluates Python's in / not in / len / and / or / == on stand-in lists",
                "non-filter early returns (network map window, manufacturer filter, unknown PGN) are held at their non-firing value"]
